@@ -120,7 +120,13 @@ ARBITRARY = st.one_of(
                      "  <?xml version=\"1.0\" encoding=\"UTF-8\"?>\n<odML version=\"1.1\"/>",
                      "<?xml version=\"1.0\" encoding=\"ISO-8859-1\"?><odML version=\"1.1\"><author>\u00e4</author></odML>",
                      "<odML version='1.1'><section><name>a</name><type>t</type>"
-                     "<sec_cardinality>(\u00b2,3)</sec_cardinality></section></odML>"]),
+                     "<sec_cardinality>(\u00b2,3)</sec_cardinality></section></odML>",
+                     "<odML version='1.1'><author>\ud800</author></odML>", "\udfff",
+                     "<?xml version=\"1.0\" encoding=\"UTF-8\"?><odML version=\"1.1\"><author>a\udc80b</author></odML>",
+                     "<odML version='1.1'><section><name>s</name><type>t</type><property><name>p</name>"
+                     "<value>[a&#13;b]</value></property></section></odML>",
+                     "<odML version='1.1'><section><name>s</name><type>t</type><property><name>p</name>"
+                     "<value>[a\"b,c]</value></property></section></odML>"]),
 )
 
 
@@ -594,6 +600,10 @@ SPECIAL = {
                           '<value>%s</value></property></section></odML>' % ("y" * 300000)).encode(),
     "deep_nesting": ('<odML version="1.1">' + "<section><name>n</name><type>t</type>" * 150 +
                      "</section>" * 150 + "</odML>").encode(),
+    "deep_nesting_400": ('<odML version="1.1">' + "<section><name>n</name><type>t</type>" * 400 +
+                         "</section>" * 400 + "</odML>").encode(),
+    "deep_nesting_1500": ('<odML version="1.1">' + "<section><name>n</name><type>t</type>" * 1500 +
+                          "</section>" * 1500 + "</odML>").encode(),
 }
 
 
